@@ -90,12 +90,14 @@ Proof. exact @matrix_of_nth. Qed.
    SIGN? (DIGITS ('.' DIGITS?)? | '.' DIGITS) ([eE] SIGN? DIGITS)? for which the oracle parse_f32
    (= Rust's str::parse::<f32>, trusted) returns a value; any number of empty lines after each
    record; LF or CRLF; rows passing FrequencyMatrix::new's tolerance test (computed in binary32).
-   [prefix]: any white-space-only complete lines before the first record (wf_blank_prefix).
+   [prefix]: any white-space-only complete lines before the first record (wf_blank_prefix);
+   [suffix]: any ASCII white space after the last record, with or without a final newline.
    Not in the theorem (correspondence check only): nan/inf spellings (such rows never pass the
    tolerance test). *)
-Theorem reader_roundtrip_uniprobe : forall A parse_f32 prefix rs s,
-  wf_alphabet A -> wf_blank_prefix prefix = true -> forallb (wf_uniprobe A parse_f32) rs = true ->
-  wf_stream s -> stream_bytes s = print_file print_uniprobe prefix rs [] ->
+Theorem reader_roundtrip_uniprobe : forall A parse_f32 prefix rs suffix s,
+  wf_alphabet A -> wf_blank_prefix prefix = true -> wf_suffix suffix = true ->
+  forallb (wf_uniprobe A parse_f32) rs = true ->
+  wf_stream s -> stream_bytes s = print_file print_uniprobe prefix rs suffix ->
   uniprobe_read A parse_f32 s
   = map (fun p => Ok (Some (record_of A F32.zero (fvalue parse_f32) (snd p)))) rs ++ [Ok None].
 Proof. exact uniprobe_roundtrip_lemma. Qed.
@@ -169,7 +171,7 @@ Example wf_uniprobe_example :
 Proof. vm_compute. split; reflexivity. Qed.
 
 Example roundtrip_instance_uniprobe :
-  let file := print_file print_uniprobe [10; 32; 9; 13; 10]%N [(ex_ustyle, ex_urec); (ex_ustyle, ex_urec)] [] in
+  let file := print_file print_uniprobe [10; 32; 9; 13; 10]%N [(ex_ustyle, ex_urec); (ex_ustyle, ex_urec)] [32; 10; 9]%N in
   uniprobe_read Dna ex_oracle (mk_stream (chunk_sizes (repeat 2 (length file)) file))
   = [Ok (Some (record_of Dna F32.zero (fvalue ex_oracle) ex_urec));
      Ok (Some (record_of Dna F32.zero (fvalue ex_oracle) ex_urec)); Ok None].
